@@ -322,6 +322,29 @@ def run(ck):
     ok = ok and u(single_def(bcm, 'res_graph')) == 'make_residue_graph({})'.format(param_names(bcm)[0])
     if ok:
         ok = u(stores[0].targets[0].slice) == '(node_to_idx[origin], node_to_idx[target])' and 'itertools.product(origin_nodes, target_nodes)' in u(tops[0])
+    if not ok and len(tops) == 1:
+        # another spelling of the double loop: interpreted on two residues (2 and 1 atoms) that are within the separation of each other
+        import itertools as _it
+
+        class _G(interp.Model):
+            def __init__(self, members):
+                self._m = members
+
+            def nodes(self):
+                return list(self._m)
+
+            def __iter__(self):
+                return iter(self._m)
+        conn_ = {}
+        env_ = {'distance_pairs': [(1, {1: 0, 2: 1}), (2, {2: 0, 1: 1})], 'res_graph.nodes': {1: {'graph': _G(['a', 'b'])}, 2: {'graph': _G(['c'])}},
+                'node_to_idx': {'a': 0, 'b': 1, 'c': 2}, 'connectivity': conn_, 'itertools.product': lambda *a: list(_it.product(*a)), 'product': lambda *a: list(_it.product(*a))}
+        try:
+            interp.run_stmts([tops[0]], env_)
+            ok = set(conn_) == {(i, j) for i in range(3) for j in range(3)} and all(v is True for v in conn_.values()) and \
+                u(single_def(bcm, 'res_graph')) == 'make_residue_graph({})'.format(param_names(bcm)[0]) and \
+                (dp is not None and u(dp) == 'nx.all_pairs_shortest_path_length(res_graph, cutoff={})'.format(param_names(bcm)[1]))
+        except (interp.Unsupported, interp.Returned, KeyError, TypeError):
+            ok = False
     ck.ob('PROV-connectivity', mod.loc(bcm), ok, 'every pair of atoms of every two residues within the separation on the residue graph is marked connected, unconditionally (both orders)',
           key='PROV-connectivity|fill')
     st2 = [s for s in ast.walk(bpm) if isinstance(s, ast.Assign) and isinstance(s.targets[0], ast.Subscript) and u(s.targets[0].value) == 'share_domain']
